@@ -190,6 +190,128 @@ theorem execPlacement_propagates (tbl : List FnDef) (b : List Stmt) (h : guarded
   rw [andThen_of_ne_normal _ _ (runStage_throws tbl cbs _)]
   exact runStage_throws tbl cbs _
 
+/-! ### a placement call ends by return or by an exception -/
+
+def Outcome.good (o : Outcome) : Prop := o = .normal ∨ o = .returned ∨ o = .thrown
+
+theorem exec_assertFree (oc : String → St → Res) (env : Env) :
+    ∀ (body : List Stmt) (st : St), assertFree body = true → (exec oc env body st).out.good := by
+  intro body
+  induction body with
+  | nil => intro st _; simp [exec, Outcome.good]
+  | cons s rest ih =>
+    intro st h
+    cases s with
+    | throwIf c =>
+      simp only [assertFree] at h
+      by_cases hc : Cond.eval env 0 c = true
+      · simp [exec, hc, Outcome.good]
+      · simpa [exec, hc] using ih st h
+    | returnIf c =>
+      simp only [assertFree] at h
+      by_cases hc : Cond.eval env 0 c = true
+      · simp [exec, hc, Outcome.good]
+      · simpa [exec, hc] using ih st h
+    | checkNotInUse =>
+      simp only [assertFree] at h
+      by_cases hu : st.inUse = true
+      · simp [exec, hu, Outcome.good]
+      · simpa [exec, hu] using ih st h
+    | assign m => simp only [assertFree] at h; simpa [exec] using ih _ h
+    | setInUse b => simp only [assertFree] at h; simpa [exec] using ih _ h
+    | call f => simp [assertFree] at h
+    | scopeGuard => simp only [assertFree] at h; simpa [exec, Res.release] using ih _ h
+    | ret => simp [exec, Outcome.good]
+    | assertC c => simp [assertFree] at h
+    | paramsCheck => simp only [assertFree] at h; simpa [exec] using ih _ h
+    | pure w => simp only [assertFree] at h; simpa [exec] using ih _ h
+
+theorem runSetter_good (tbl : List FnDef) (haf : ∀ f ∈ tbl, assertFree f.body = true) (sc : SetterCall) (st : St)
+    (hk : (lookup tbl sc.name).isSome = true) : (runSetter tbl sc st).out.good := by
+  unfold runSetter
+  cases hl : lookup tbl sc.name with
+  | none => simp [hl] at hk
+  | some f =>
+    have hm : f ∈ tbl := by
+      unfold lookup at hl
+      exact List.mem_of_find?_eq_some hl
+    simpa using exec_assertFree noCall sc.env f.body st (haf f hm)
+
+theorem runActs_normal (tbl : List FnDef) (haf : ∀ f ∈ tbl, assertFree f.body = true) :
+    ∀ (acts : List SetterCall) (st : St), (∀ a ∈ acts, (lookup tbl a.name).isSome = true) →
+      (runActs tbl acts st).out = .normal := by
+  intro acts
+  induction acts with
+  | nil => intro st _; simp [runActs]
+  | cons a rest ih =>
+    intro st hk
+    have hg := runSetter_good tbl haf a st (hk a (by simp))
+    simp only [runActs]
+    split
+    · rename_i h; simp [Outcome.good, h] at hg
+    · rename_i h; simp [Outcome.good, h] at hg
+    · simpa using ih _ (fun b hb => hk b (by simp [hb]))
+
+theorem andThen_out_of_normal (r : Res) (k : St → Res) (h : r.out = .normal) : (r.andThen k).out = (k r.st).out := by
+  unfold Res.andThen
+  simp [h]
+
+def Callback.known (tbl : List FnDef) (cb : Callback) : Prop := ∀ a ∈ cb.acts, (lookup tbl a.name).isSome = true
+
+theorem runCallbacks_out (tbl : List FnDef) (haf : ∀ f ∈ tbl, assertFree f.body = true) :
+    ∀ (cbs : List Callback) (st : St), (∀ cb ∈ cbs, cb.known tbl) →
+      (runCallbacks tbl cbs st).out = .normal ∨ (runCallbacks tbl cbs st).out = .thrown := by
+  intro cbs
+  induction cbs with
+  | nil => intro st _; simp [runCallbacks]
+  | cons cb rest ih =>
+    intro st hk
+    simp only [runCallbacks]
+    rw [andThen_out_of_normal _ _ (runActs_normal tbl haf cb.acts st (hk cb (by simp)))]
+    by_cases ht : cb.throws = true
+    · simp [ht]
+    · simpa [ht] using ih _ (fun c hc => hk c (by simp [hc]))
+
+theorem runStage_out (tbl : List FnDef) (haf : ∀ f ∈ tbl, assertFree f.body = true) (sg : Stage) (st : St)
+    (hk : ∀ cb ∈ sg.cbs, cb.known tbl) :
+    (runStage tbl sg st).out = .normal ∨ (runStage tbl sg st).out = .thrown := by
+  unfold runStage
+  rcases runCallbacks_out tbl haf sg.cbs st hk with h | h
+  · rw [andThen_out_of_normal _ _ h]
+    by_cases ht : sg.throws = true <;> simp [ht]
+  · rw [andThen_of_ne_normal _ _ (by simp [h])]
+    exact Or.inr h
+
+theorem execPlacement_out (tbl : List FnDef) (haf : ∀ f ∈ tbl, assertFree f.body = true) (b : List Stmt)
+    (hb : guardedCall b = true) (sg : Stage) (st : St) (hk : ∀ cb ∈ sg.cbs, cb.known tbl) :
+    (execPlacement tbl b sg st).out = .normal ∨ (execPlacement tbl b sg st).out = .thrown := by
+  obtain ⟨n, rfl⟩ := guardedCall_shape b hb
+  simp only [execPlacement, exec, Res.release]
+  rcases runStage_out tbl haf sg _ hk with h | h
+  · rw [andThen_out_of_normal _ _ h]; simp
+  · rw [andThen_of_ne_normal _ _ (by simp [h])]
+    exact Or.inr h
+
+/-! ### pin validation condition -/
+
+/-- some pin cell of argument `i` is outside `[0, nbCells)` -/
+def pinOutOfRange (i : Nat) : Cond := .anyElem i (.or (.lt .elem (.lit 0)) (.le .nbCells .elem))
+
+theorem pinOutOfRange_eval (env : Env) (i : Nat) :
+    Cond.eval env 0 (pinOutOfRange i) = true ↔ ∃ c ∈ (env.arg i).vals, c < 0 ∨ env.nbCells ≤ c := by
+  simp only [pinOutOfRange, Cond.eval, Expr.eval, List.any_eq_true, Bool.or_eq_true]
+  constructor
+  · rintro ⟨c, hc, h⟩
+    refine ⟨c, hc, ?_⟩
+    rcases h with h | h
+    · exact Or.inl (of_decide_eq_true h)
+    · exact Or.inr (of_decide_eq_true h)
+  · rintro ⟨c, hc, h⟩
+    refine ⟨c, hc, ?_⟩
+    rcases h with h | h
+    · exact Or.inl (decide_eq_true h)
+    · exact Or.inr (decide_eq_true h)
+
 /-! ### constructors -/
 
 theorem runCtor_safeFrom (e : Int) :
